@@ -47,6 +47,8 @@ pub enum HOp {
     Import { kind: usize, topic: String, ctx: CtxRef, ttl: usize, ts_off: i64, salt: u64 },
     Version,
     Unknown { method: String, path: String },
+    /// several requests written back to back on one connection before any response is read
+    Pipelined { kinds: Vec<usize>, frag: u64 },
     FollowOpen { kind: usize, ctx: Option<CtxRef>, topic: String, sse: bool },
     FollowClose { k: usize },
 }
@@ -133,10 +135,10 @@ pub fn generate(seed: u64, prop: &str, thorough: bool) -> Plan {
     };
     let topic = |rng: &mut Rng| rng.pick(HTOPICS).to_string();
     let w: Vec<u32> = match prop {
-        "C06" => vec![30, 3, 3, 12, 16, 1, 1, 3, 0, 1, 14, 3, 5, 2, 2],
-        "C10" => vec![34, 4, 4, 3, 6, 12, 10, 2, 0, 1, 8, 2, 3, 1, 1],
-        "C20" => vec![30, 3, 6, 4, 8, 8, 4, 14, 0, 1, 3, 1, 4, 2, 2],
-        _ => vec![26, 7, 6, 7, 12, 5, 5, 6, 1, 6, 6, 2, 4, 2, 2],
+        "C06" => vec![30, 3, 3, 12, 16, 1, 1, 3, 0, 1, 14, 3, 5, 2, 2, 0],
+        "C10" => vec![34, 4, 4, 3, 6, 12, 10, 2, 0, 1, 8, 2, 3, 1, 1, 0],
+        "C20" => vec![30, 3, 6, 4, 8, 8, 4, 14, 0, 1, 3, 1, 4, 2, 2, 0],
+        _ => vec![26, 7, 6, 7, 12, 5, 5, 6, 1, 6, 6, 2, 4, 2, 2, 3],
     };
     let mut follows = 0;
     for _ in 0..n {
@@ -255,6 +257,7 @@ pub fn generate(seed: u64, prop: &str, thorough: bool) -> Plan {
                 hash: rng.below(3),
             }),
             13 => Step::S(Op::Tick { ms: *rng.pick(&[1u64, 5, 10, 70_000]) }),
+            15 => Step::H(HOp::Pipelined { kinds: (0..rng.range(2, 3)).map(|_| rng.below(5)).collect(), frag: rng.next_u64() }),
             _ => Step::S(Op::GcDrain),
         };
         ops.push(step);
@@ -1098,6 +1101,38 @@ impl Exec4 {
                     Outcome::Dropped(why) => return self.dropped(&what, why),
                     Outcome::Cut | Outcome::Stalled => {}
                 }
+            }
+            HOp::Pipelined { kinds, frag } => {
+                let table: [(&str, &str, u16); 5] = [
+                    ("GET", "/version", 200),
+                    ("GET", "/not-an-id", 400),
+                    ("PUT", "/x", 404),
+                    ("GET", "/head/never-used-topic", 404),
+                    ("DELETE", "/zzz", 400),
+                ];
+                let mut bytes = Vec::new();
+                for k in kinds {
+                    let (m, p, _) = table[k % table.len()];
+                    bytes.extend_from_slice(&http::build_request(m, p, &[], None, false, 0));
+                }
+                let first = self.request(&bytes, *frag, None, true, false)?;
+                let mut outs = vec![first];
+                for _ in 1..kinds.len() {
+                    outs.push(self.read_response(false)?);
+                }
+                for (i2, (k, out)) in kinds.iter().zip(outs.into_iter()).enumerate() {
+                    let (m, p, want) = table[k % table.len()];
+                    match out {
+                        Outcome::Resp(r) => {
+                            if r.status != want {
+                                return violation("http/status", format!("{}: pipelined request #{} ({} {}) answered {}, expected {}", what, i2, m, p, r.status, want));
+                            }
+                        }
+                        Outcome::Dropped(why) => return self.dropped(&format!("{} pipelined request #{} ({} {})", what, i2, m, p), why),
+                        _ => {}
+                    }
+                }
+                self.ex.w.probe("http:pipelined");
             }
             HOp::FollowOpen { kind, ctx, topic, sse } => {
                 let c = ctx.as_ref().map(|c| self.ex.ctx(c));
